@@ -54,7 +54,7 @@ def _parse_head(head):
         mm = re.search(rx, head)
         h[k] = mm.group(1) if mm else ""
     mm = re.search(r"stubs:\s*\[(.*?)\]\s*,\s*targets", head, re.S)
-    h["stubs"] = [s.strip() for s in re.findall(r"([\w:]+)\s*=>", mm.group(1))] if mm else []
+    h["stubs"] = [" ".join(s.split()) for s in re.findall(r"([^,\[\]]+?)\s*=>", mm.group(1))] if mm else []
     mm = re.search(r"flags:\s*\[(.*?)\]", head)
     h["flags"] = [f.strip() for f in mm.group(1).split(",") if f.strip()] if mm else []
     mm = re.search(r'kf:\s*"([^"]+)"', head)
